@@ -735,7 +735,7 @@ def run_update_both(ck, ck_ob, mod, label, maxlen=100):
     small_broken = None
     nviol0 = len(ck.violations)
     try:
-        n += run_update_small(ck_ob, mod, label, maxlen=maxlen)
+        n += run_update_small(ck_ob, mod, label, maxlen=(max(maxlen, 200) if getattr(ck, 'tier', 'quick') == 'thorough' else maxlen))
     except Broken as e:
         small_broken = e
     nviol = len(ck.violations)
